@@ -178,3 +178,8 @@ def _mode_spec(cx):
 
 
 determine_demultiplex_mode.specs.append(_mode_spec)
+
+
+def extra_checks(res, tier, seed, known, log):
+    from pyvc import runner
+    runner.cli_grid(res, "C15", tier, seed, known)
